@@ -107,7 +107,7 @@ class C11(Prop):
     # K2: the slice of the (stage-2) engine model's state / records this property reads
     k2_mask = {('ind', '*'), ('rec', '*'), ('server', '*'), ('node', 'interrupted'), ('node', 'nint'), ('node', 'insvc'), ('node', 'queues')}
     k2_frames = 40
-    k2_invs2 = {'svc2'}         # the stage-2 T2 invariants (Inv/AllRun2.invs2_b) this property answers for on real snapshots
+    k2_invs2 = {'svc2', 'noinv'}         # the stage-2 T2 invariants (Inv/AllRun2.invs2_b) this property answers for on real snapshots
     regions = {'quick': [('preempt', 240), ('preempt_deep', 120), ('renege_preempt', 80), ('prio_reroute', 60), ('jsq_preempt', 40), ('schedpre', 100), ('slotted', 30), ('slotted_pre', 40),
                          ('dyn', 40), ('all', 60)]}
     rule = ('one case = one observed run of a network with pre-emptive priorities and/or pre-emptive schedules (customers of those nodes never '
